@@ -58,15 +58,17 @@ RpVerdict(e) ==
      ELSE IF q.exc # "" THEN R_("Applicable", "RecurrenceNetwork." \o q.exc)
      ELSE IF ~(SquareOf(p.R, n) /\ p.N = n) THEN R_("Sizes", "RecurrencePlot.N/R")
      ELSE IF ~SquareOf(q.R, n) THEN R_("Sizes", "RecurrenceNetwork.R")
-     ELSE IF ~MatrixDef(e, p) THEN R_("MatrixDef", "RecurrencePlot.recurrence_matrix")
-     ELSE IF ~MatrixDef(e, q) THEN R_("MatrixDef", "RecurrenceNetwork.recurrence_matrix")
-     ELSE IF ~EqualLocal(e, p) THEN R_("EqualLocal", "set_fixed_local_recurrence_rate")
-     ELSE IF ~RateDef(p) THEN R_("RateDef", "RecurrencePlot.recurrence_rate")
-     ELSE IF ~NetDef(e, q) THEN R_("NetDef", "RecurrenceNetwork.adjacency")
-     ELSE IF ~LinesOK(p.lines, p.R, MvE(e)) THEN R_("RQAApplicable", "RecurrencePlot:" \o p.lines.exc)
-     ELSE IF ~(q.N = Len(q.R)) THEN R_("Sizes", "RecurrenceNetwork.N")
-     ELSE IF ~LinesOK(q.lines, q.R, MvE(e)) THEN R_("RQAApplicable", "RecurrenceNetwork:" \o q.lines.exc)
-     ELSE <<"ACCEPT", "", "", RpTags(e)>>
+     \* from here on every clause is evaluated and every failing site is named (a listed finding at one site
+     \* does not hide another)
+     ELSE LET f == (IF ~MatrixDef(e, p) THEN {"MatrixDef|RecurrencePlot.recurrence_matrix"} ELSE {})
+                   \cup (IF ~MatrixDef(e, q) THEN {"MatrixDef|RecurrenceNetwork.recurrence_matrix"} ELSE {})
+                   \cup (IF ~EqualLocal(e, p) THEN {"EqualLocal|set_fixed_local_recurrence_rate"} ELSE {})
+                   \cup (IF ~RateDef(p) THEN {"RateDef|RecurrencePlot.recurrence_rate"} ELSE {})
+                   \cup (IF ~NetDef(e, q) THEN {"NetDef|RecurrenceNetwork.adjacency"} ELSE {})
+                   \cup (IF ~LinesOK(p.lines, p.R, MvE(e)) THEN {"RQAApplicable|RecurrencePlot:" \o p.lines.exc} ELSE {})
+                   \cup (IF ~(q.N = Len(q.R)) THEN {"Sizes|RecurrenceNetwork.N"} ELSE {})
+                   \cup (IF ~LinesOK(q.lines, q.R, MvE(e)) THEN {"RQAApplicable|RecurrenceNetwork:" \o q.lines.exc} ELSE {})
+          IN IF f = {} THEN <<"ACCEPT", "", "", RpTags(e)>> ELSE R_("Multi", JoinSet(f))
 
 \* ---- cross and inter-system ----------------------------------------------------
 XT(e, s, tau) == IF e.emb = 1 THEN Embed(s, 2, tau) ELSE Scalar(s)
